@@ -26,12 +26,27 @@ type scenario struct {
 
 var ctx = context.Background()
 
+// pass runs one stabilization: serial when par is 0
+func pass(g *incr.Graph, par int) error {
+	if par == 0 {
+		return g.Stabilize(ctx)
+	}
+	return g.ParallelStabilize(ctx)
+}
+
+func newGraph(par int) *incr.Graph {
+	if par == 0 {
+		return incr.New()
+	}
+	return incr.New(incr.OptGraphParallelism(par))
+}
+
 // a var created inside a bind scope sits at height >= 1 and shares a height block with
 // ordinary nodes; one of them writes it (the supported deferred Set) while it recomputes
 func varInScope(par, rounds int, rng *hx.Rand) (int, string) {
 	passes := 0
 	for r := 0; r < rounds; r++ {
-		g := incr.New(incr.OptGraphParallelism(par))
+		g := newGraph(par)
 		v0 := incr.Var(g, 0)
 		var inner incr.VarIncr[int]
 		b := incr.Bind(g, v0, func(bs incr.Scope, x int) incr.Incr[int] {
@@ -50,7 +65,7 @@ func varInScope(par, rounds int, rng *hx.Rand) (int, string) {
 		})
 		ob := incr.MustObserve(g, b)
 		om := incr.MustObserve(g, m)
-		if err := g.ParallelStabilize(ctx); err != nil {
+		if err := pass(g, par); err != nil {
 			return passes, err.Error()
 		}
 		passes++
@@ -60,7 +75,7 @@ func varInScope(par, rounds int, rng *hx.Rand) (int, string) {
 			inner.Set(direct)
 			wv := 2 + rng.Intn(9)
 			w.Set(wv)
-			if err := g.ParallelStabilize(ctx); err != nil {
+			if err := pass(g, par); err != nil {
 				return passes, err.Error()
 			}
 			passes++
@@ -69,7 +84,7 @@ func varInScope(par, rounds int, rng *hx.Rand) (int, string) {
 				return passes, fmt.Sprintf("round %d step %d: observers read (%d,%d), the pass's inputs give (%d,%d)", r, i, ob.Value(), om.Value(), direct, wv+1)
 			}
 			want = (wv + 1) * 10
-			if err := g.ParallelStabilize(ctx); err != nil {
+			if err := pass(g, par); err != nil {
 				return passes, err.Error()
 			}
 			passes++
@@ -81,12 +96,65 @@ func varInScope(par, rounds int, rng *hx.Rand) (int, string) {
 	return passes, ""
 }
 
+// the same var, written by a node function of a LOWER height block while it is itself queued
+// because of a Set made between the passes: the pass must read the between-pass value, the
+// deferred one becomes the var's value when the pass ends (C12)
+func varInScopeSetFromBelow(par, rounds int, rng *hx.Rand) (int, string) {
+	passes := 0
+	for r := 0; r < rounds; r++ {
+		g := newGraph(par)
+		v0 := incr.Var(g, 0)
+		var inner incr.VarIncr[int]
+		b := incr.Bind(g, v0, func(bs incr.Scope, x int) incr.Incr[int] {
+			if inner == nil {
+				inner = incr.Var(bs, x)
+			}
+			return inner
+		})
+		seen := incr.Map(g, b, func(x int) int { return x })
+		w := incr.Var(g, 1)
+		m := incr.Map(g, w, func(x int) int {
+			if inner != nil {
+				inner.Set(x * 10)
+			}
+			return x
+		})
+		ob := incr.MustObserve(g, seen)
+		om := incr.MustObserve(g, m)
+		if err := pass(g, par); err != nil {
+			return passes, err.Error()
+		}
+		passes++
+		for i := 0; i < 4; i++ {
+			direct := 100 + rng.Intn(50)
+			inner.Set(direct)
+			wv := 2 + rng.Intn(9)
+			w.Set(wv)
+			if err := pass(g, par); err != nil {
+				return passes, err.Error()
+			}
+			passes++
+			if ob.Value() != direct || om.Value() != wv {
+				return passes, fmt.Sprintf("round %d step %d: the pass computed (%d,%d) but its inputs were inner=%d (set between the passes), w=%d", r, i, ob.Value(), om.Value(), direct, wv)
+			}
+			if err := pass(g, par); err != nil {
+				return passes, err.Error()
+			}
+			passes++
+			if ob.Value() != wv*10 {
+				return passes, fmt.Sprintf("round %d step %d: the deferred Set(%d) is not what the next pass reads (%d)", r, i, wv*10, ob.Value())
+			}
+		}
+	}
+	return passes, ""
+}
+
 // one height block: some nodes fail (error or panic) and re-queue themselves while their
 // siblings succeed and queue children
 func failingSiblings(par, rounds int, rng *hx.Rand) (int, string) {
 	passes := 0
 	for r := 0; r < rounds; r++ {
-		g := incr.New(incr.OptGraphParallelism(par))
+		g := newGraph(par)
 		const w = 12
 		vars := make([]incr.VarIncr[int], w)
 		obs := make([]incr.ObserveIncr[int], w)
@@ -106,7 +174,7 @@ func failingSiblings(par, rounds int, rng *hx.Rand) (int, string) {
 			c := incr.Map(g, m, func(x int) int { return x + 1 })
 			obs[i] = incr.MustObserve(g, c)
 		}
-		if err := g.ParallelStabilize(ctx); err != nil {
+		if err := pass(g, par); err != nil {
 			return passes, err.Error()
 		}
 		passes++
@@ -125,7 +193,7 @@ func failingSiblings(par, rounds int, rng *hx.Rand) (int, string) {
 					anyFail = true
 				}
 			}
-			err := g.ParallelStabilize(ctx)
+			err := pass(g, par)
 			passes++
 			if anyFail != (err != nil) {
 				return passes, fmt.Sprintf("round %d step %d: planned failure=%v but the pass returned %v", r, step, anyFail, err)
@@ -133,7 +201,7 @@ func failingSiblings(par, rounds int, rng *hx.Rand) (int, string) {
 			for i := range failNow {
 				failNow[i] = 0
 			}
-			if err := g.ParallelStabilize(ctx); err != nil {
+			if err := pass(g, par); err != nil {
 				return passes, fmt.Sprintf("round %d step %d: the retry pass failed: %v", r, step, err)
 			}
 			passes++
@@ -151,7 +219,7 @@ func failingSiblings(par, rounds int, rng *hx.Rand) (int, string) {
 func foldManyInputs(par, rounds int, rng *hx.Rand) (int, string) {
 	passes := 0
 	for r := 0; r < rounds; r++ {
-		g := incr.New(incr.OptGraphParallelism(par))
+		g := newGraph(par)
 		const w = 24
 		vars := make([]incr.VarIncr[int], w)
 		ins := make([]incr.Incr[int], 0, w+4)
@@ -167,7 +235,7 @@ func foldManyInputs(par, rounds int, rng *hx.Rand) (int, string) {
 			val[i] = i
 		}
 		for step := 0; step < 5; step++ {
-			if err := g.ParallelStabilize(ctx); err != nil {
+			if err := pass(g, par); err != nil {
 				return passes, err.Error()
 			}
 			passes++
@@ -195,7 +263,7 @@ func foldManyInputs(par, rounds int, rng *hx.Rand) (int, string) {
 func bindsSharingOuter(par, rounds int, rng *hx.Rand) (int, string) {
 	passes := 0
 	for r := 0; r < rounds; r++ {
-		g := incr.New(incr.OptGraphParallelism(par))
+		g := newGraph(par)
 		sel := incr.Var(g, 0)
 		base := incr.Var(g, 1)
 		o1 := incr.Map(g, base, func(x int) int { return x + 1 })
@@ -215,7 +283,7 @@ func bindsSharingOuter(par, rounds int, rng *hx.Rand) (int, string) {
 		}
 		s, bv := 0, 1
 		for step := 0; step < 6; step++ {
-			if err := g.ParallelStabilize(ctx); err != nil {
+			if err := pass(g, par); err != nil {
 				return passes, err.Error()
 			}
 			passes++
@@ -244,10 +312,12 @@ func main() {
 		seed    = flag.Uint64("seed", 1, "seed")
 		rounds  = flag.Int("rounds", 40, "graphs per scenario and parallelism")
 		jsonOut = flag.String("json", "", "report file")
+		claim   = flag.String("claim", "C04", "property the violations are reported for")
 	)
 	flag.Parse()
 	scenarios := []scenario{
 		{"var-in-bind-scope-set-by-sibling", "a var created inside a bind scope is written (deferred Set) by a node function of its own height block", varInScope},
+		{"var-in-bind-scope-set-from-a-lower-block", "a queued var created inside a bind scope is written (deferred Set) by a node function of a lower height block", varInScopeSetFromBelow},
 		{"failing-siblings-queue-children", "nodes of one height block fail or panic and re-queue themselves while siblings queue children", failingSiblings},
 		{"fold-many-inputs", "UnorderedArrayFold with repeated inputs, most inputs changing in one pass", foldManyInputs},
 		{"binds-sharing-outer-nodes", "six binds of one height switch between shared outer nodes of different heights in one pass", bindsSharingOuter},
@@ -255,20 +325,20 @@ func main() {
 	rep := hx.NewReport("parscen", *seed)
 	rng := hx.NewRand(*seed)
 	for _, sc := range scenarios {
-		for _, par := range []int{2, 4, 16} {
+		for _, par := range []int{0, 1, 2, 4, 16} {
 			passes, problem := sc.run(par, *rounds, rng.Fork())
 			rep.Evaluations += passes
 			rep.Distinct += *rounds
 			rep.Count(fmt.Sprintf("%s/p=%d:passes", sc.name, par))
 			rep.Histogram[fmt.Sprintf("%s/p=%d:passes", sc.name, par)] = passes
 			if problem != "" {
-				rep.AddViolation(hx.Violation{Property: "C04", What: "ParallelStabilize scenario '" + sc.what + "': " + problem,
+				rep.AddViolation(hx.Violation{Property: *claim, What: "stabilization scenario '" + sc.what + "': " + problem,
 					Key:    "parscen:" + sc.name,
 					Replay: map[string]any{"scenario": sc.name, "parallelism": par, "seed": *seed, "rounds": *rounds, "cmd": "harness/cmd/parscen -seed <seed> -rounds <rounds>"}})
 			}
 		}
 	}
-	rep.Rule = fmt.Sprintf("%d hand-written scenarios x parallelism 2,4,16 x %d fresh graphs, 5-13 passes each; evaluations = passes; "+
+	rep.Rule = fmt.Sprintf("%d hand-written scenarios x (Stabilize, ParallelStabilize at parallelism 1,2,4,16) x %d fresh graphs, 5-13 passes each; evaluations = passes; "+
 		"every pass's observer values compared with the program's plain definition", len(scenarios), *rounds)
 	if *jsonOut != "" {
 		if err := rep.Write(*jsonOut); err != nil {
